@@ -45,7 +45,8 @@ TIER_RUNS = {
                  'C09': 200000, 'C10': 140000, 'C11': 200000, 'C12': 400000, 'C13': 90000,
                  'C16': 400000, 'C19': 800000},
 }
-TIER_SECS = {'quick': 100, 'thorough': 2400}
+# wall-clock caps; the run counts above are meant to bind (the quick cap only matters on a loaded machine)
+TIER_SECS = {'quick': 200, 'thorough': 2400}
 
 
 def _signature(v):
